@@ -581,6 +581,10 @@ class Norm:
     def mcall(self, n):
         name = n["name"]
         if name == "len" and not n["args"]:
+            if self.reduce_hook is not None:
+                r = self.reduce_hook(self, n)        # e.g. the length of a named flat copy of the target is N
+                if r is not None:
+                    return r
             try:
                 return Rat.atom(self.place_name(n))
             except ValueError:
